@@ -656,7 +656,18 @@ class Interp:
                 self.trace.append(("debug_assert", loc(se)))
                 continue
             if s["k"] == "Let":
-                init = self.eval(fr, s["init"]) if s.get("init") else Opaque("uninit")
+                if s.get("init") and self.mode in ("write", "value") and not self._touches_writer(s["init"]):
+                    # a local computed without touching the writer (a flags byte, a boolean): when it cannot be summarised it is
+                    # an unknown value -- using it as a length later is still an error
+                    try:
+                        st_ = (self.written, len(self.trace))
+                        init = self.eval(fr, s["init"])
+                    except Unsupported as ex_:
+                        self.written = st_[0]
+                        del self.trace[st_[1]:]
+                        init = Opaque("unsummarised local: %s" % ex_)
+                else:
+                    init = self.eval(fr, s["init"]) if s.get("init") else Opaque("uninit")
                 if isinstance(init, tuple) and init and init[0] == "checked" and s["pat"].get("k") == "Variant" and s["pat"].get("variant") == "Some":
                     # `let Some(rest) = a.checked_sub(b) else { refuse }`: on the accepting path rest = a - b
                     self.bind(fr, s["pat"]["subs"][0]["pat"], init[1])
@@ -1073,11 +1084,14 @@ class Interp:
             if cases is None:
                 raise Unsupported("map_or on %r" % (optv,))
             tot = Poly()
-            for i, v in cases:
-                if v[0] == "some":
-                    tot = tot + i * as_poly(self.apply_fn(fr, f, [v[1]], args[2]), "map_or closure")
-                else:
-                    tot = tot + i * as_poly(dflt, "map_or default")
+            try:
+                for i, v in cases:
+                    if v[0] == "some":
+                        tot = tot + i * as_poly(self.apply_fn(fr, f, [v[1]], args[2]), "map_or closure")
+                    else:
+                        tot = tot + i * as_poly(dflt, "map_or default")
+            except Unsupported:
+                return Opaque("map_or of non-length values")
             return tot
         if name == "sum" and tr.endswith("iterator::Iterator") and len(args) == 1:
             return self.eval_sum(fr, args[0])
@@ -1145,6 +1159,22 @@ class Interp:
                 return self._inline_local(fr, e, res, name, args, vals)
             finally:
                 self.tymap = old_tm
+        if callee is None and fn.get("res_kind") == "Unresolved" and fn.get("krate") == self.F.data["crate"] and len(args) == 1:
+            # a method of a private crate trait called on a type parameter (`code.byte()`): when every implementation, applied
+            # to a place, returns that very place (`self as u8`, `*self`), the call carries the value
+            recv = self.eval(fr, args[0])
+            if isinstance(recv, PathVal):
+                outs = []
+                for imp in self.F.impls:
+                    if imp.get("trait") == fn.get("trait"):
+                        for it in imp["items"]:
+                            if it["name"] == name and it["def"] in self.F.fns:
+                                try:
+                                    outs.append(self.run_fn(it["def"], [PathVal(recv.path)]))
+                                except Unsupported:
+                                    outs.append(None)
+                if outs and all(isinstance(o, PathVal) and o.path == recv.path for o in outs):
+                    return PathVal(recv.path)
         # pure foreign helpers with no writer argument
         for a in args:
             self.eval_quiet(fr, a)
@@ -1187,6 +1217,17 @@ class Interp:
     def mentions_writer(self, fr, a):
         a = strip(a)
         return a.get("k") == "Var" and a["var"]["name"] in ("writer", "buf") and "Write" in (a.get("ty") or "")
+
+    def _touches_writer(self, e):
+        for y in walk_all(e):
+            if y.get("k") == "Call":
+                d_ = y["fn"].get("res") or y["fn"].get("def") or ""
+                nm_ = y["fn"].get("name")
+                if d_.startswith("common::utils::write_") or nm_ in ("write_all", "write", "encode", "push", "extend_from_slice", "try_for_each", "for_each"):
+                    return True
+            if y.get("k") in ("Var", "Upvar") and y["var"].get("name") in ("writer", "buf"):
+                return True
+        return False
 
     def call_value(self, fr, e):
         """a call through a function value held in a local (`wrap(x)` where wrap is a constructor or closure picked earlier)"""
